@@ -135,9 +135,6 @@ class RawSess(asyncssh.SSHClientSession):
         self.closed = True
 
 
-PATH_FLAGS = ('dotdot', 'abs', 'empty-comp', 'nonutf8', 'long', 'sentinel')
-
-
 def path_labels(p: bytes, labels: set, prefix: str = 'path:') -> bool:
     """Label the textual shape of a path; True when it is hostile-shaped"""
 
@@ -999,31 +996,31 @@ def chroot_strategy(tier: str):
 # family (d): the chrooted server reached through scp -t / scp -f
 # ---------------------------------------------------------------------------
 
-def render_records(records, send_data: bool = True) -> List[bytes]:
-    """SCP records -> list of byte chunks; after each chunk the sender waits
-    for one response"""
+def render_records(records) -> List[Tuple[bytes, bool, bool]]:
+    """SCP records -> [(bytes to send, peer answers with one response, this
+    is the data of the preceding C record: skipped when that was refused)]"""
 
-    out = []
+    out: List[Tuple[bytes, bool, bool]] = []
 
     for r in records:
         k = r[0]
 
         if k == 'C':
             _, mode, size, name, sent = r
-            out.append(b'C%04o %d %s\n' % (mode, size, name))
-
-            if send_data:
-                out.append(b'z' * sent + b'\0')
+            out.append((b'C%04o %d %s\n' % (mode, size, name), True, False))
+            # short data: the sink keeps reading, so keep talking
+            out.append((b'z' * sent + b'\0', sent >= size, True))
         elif k == 'D':
-            out.append(b'D%04o 0 %s\n' % (r[1], r[2]))
+            out.append((b'D%04o 0 %s\n' % (r[1], r[2]), True, False))
         elif k == 'E':
-            out.append(b'E\n')
+            out.append((b'E\n', True, False))
         elif k == 'T':
-            out.append(b'T%d 0 %d 0\n' % (r[1], r[2]))
+            out.append((b'T%d 0 %d 0\n' % (r[1], r[2]), True, False))
         elif k == 'raw':
-            out.append(r[1] + b'\n')
+            out.append((r[1] + b'\n', True, False))
         elif k == 'err':
-            out.append(bytes([r[1]]) + r[2] + b'\n')
+            # error records are not acknowledged
+            out.append((bytes([r[1]]) + r[2] + b'\n', False, False))
 
     return out
 
@@ -1090,9 +1087,16 @@ def run_scp_chroot(case) -> CaseResult:
         if case['dir'] == 'upload':
             resp = response()
 
-            for chunk in render_records(case['records']):
+            for chunk, answered, is_data in render_records(case['records']):
+                if is_data and resp != b'\0':
+                    continue
+
                 if resp is None or not write(chunk):
                     break
+
+                if not answered:
+                    h.pump()
+                    continue
 
                 resp = response()
 
@@ -1585,11 +1589,16 @@ def run_scp_sink(case) -> CaseResult:
             return True
 
         try:
-            await response()
+            good = await response()
 
-            for chunk in chunks:
+            for chunk, answered, is_data in chunks:
+                if is_data and not good:
+                    continue
+
                 stdout.write(chunk)
-                await response()
+
+                if answered:
+                    good = await response()
         except (EOFError, OSError, asyncssh.Error):
             pass
 
